@@ -91,14 +91,16 @@ fn bare_to_dim_type(
                         let opt_q: Option<TypeQualifier> =
                             variable_info.expression_type.opt_qualifier();
                         let existing_q = opt_q.expect("Should be qualified");
-                        if existing_q == q {
-                            debug_assert!(found.is_none());
+                        // the name of the current scope goes first,
+                        // a SHARED name of the main module may follow
+                        if existing_q == q && found.is_none() {
                             found = Some((built_in_style, variable_info));
                         }
                     }
                     BuiltInStyle::Extended => {
-                        debug_assert!(found.is_none());
-                        found = Some((built_in_style, variable_info));
+                        if found.is_none() {
+                            found = Some((built_in_style, variable_info));
+                        }
                     }
                 }
             }
